@@ -2,6 +2,7 @@ package main
 
 import (
 	"bytes"
+	"crypto/sha256"
 	"encoding/json"
 	"fmt"
 	"math"
@@ -49,7 +50,7 @@ func checkC07(e *Env) {
 			ops = append(ops, plan.Op{Fn: "ident"})
 		}
 		for k := 0; k < calls; k++ {
-			ops = append(ops, plan.Op{Fn: "new", N: int64(ref.WordCounts[(k+p)%5]), L: int64((k/5 + r.Intn(2)*5) % ref.NLang)})
+			ops = append(ops, plan.Op{Fn: "new", N: int64(ref.WordCounts[(k+p)%5]), L: int64((k/5 + r.Intn(2)*5) % ref.NLang), Keep: withIdent})
 			if withIdent && p%3 == 1 && k%2 == 0 {
 				// calls of the other functions in between (bystanders: failing validations,
 				// scripted sources that fail half way, rejected sizes, seeds)
@@ -71,6 +72,10 @@ func checkC07(e *Env) {
 					ops = append(ops, plan.Op{Fn: "new", L: int64(l), N: 24, Src: &plan.Src{Data: hx(ent)}}, plan.Op{Fn: "chk", L: int64(l), S: hxs(strings.Join(w, " "))})
 				}
 			}
+		}
+		if withIdent {
+			// the caller holds on to every mnemonic; they are read again after the last call
+			ops = append(ops, plan.Op{Fn: "keepdump"})
 		}
 		for i := range ops {
 			ops[i].I = i
@@ -207,6 +212,27 @@ func checkC07(e *Env) {
 		}
 		if id["restore_returned_probe"] != "true" {
 			fatalInconclusive("C07: the swap hook did not return the probe that was installed")
+		}
+		// mnemonics the caller held on to: at the end of the process each must still read as it
+		// did when it was returned (what the source delivered, and nothing a later call wrote)
+		if last := len(res) - 1; last > 0 && ops[last].Fn == "keepdump" {
+			for _, inf := range res[last].Info {
+				k := strings.IndexByte(inf, ':')
+				var i int
+				if k < 0 || strings.HasPrefix(inf, "buf") || strings.HasPrefix(inf, "err") {
+					continue
+				}
+				if n, _ := fmt.Sscanf(inf[:k], "%d", &i); n != 1 || i <= 0 || i >= last || ops[i].Fn != "new" || ops[i].Src != nil || res[i].Err != nil {
+					continue
+				}
+				obs.Inc("held_mnemonics_read_again_at_the_end_of_the_process")
+				h := sha256.Sum256(unhex(res[i].Out))
+				if hx(h[:]) != inf[k+1:] {
+					e.Violate(&Violation{What: fmt.Sprintf("the mnemonic NewMnemonic(%d, %s) returned as call %d (%s) reads differently at the end of the process: a later call wrote into it, it is no longer the encoding of what the source delivered", ops[i].N, ref.Names[ops[i].L], i, preview(string(unhex(res[i].Out)))),
+						Ops: ops, ChildEnv: env, Observed: res[i], Detail: "the child keeps every returned mnemonic and digests it again after the last call"})
+					return
+				}
+			}
 		}
 		var ents [][]byte
 		for i := 1; i < len(res); i++ {
